@@ -16,6 +16,7 @@ import (
 	"github.com/hashicorp/raft"
 	"github.com/rqlite/rqlite/v10/internal/fsutil"
 	"github.com/rqlite/rqlite/v10/internal/rsync"
+	"github.com/rqlite/rqlite/v10/internal/vhook"
 	"github.com/rqlite/rqlite/v10/snapshot/plan"
 )
 
@@ -158,6 +159,7 @@ func (l *LockingStreamer) Close() error {
 		l.timer.Stop()
 	}
 	defer l.str.mrsw.EndRead()
+	defer vhook.Point("stream.release.close")
 	return l.ReadCloser.Close()
 }
 
@@ -184,6 +186,7 @@ func (l *LockingStreamer) checkIdle() {
 	if closeErr := l.ReadCloser.Close(); closeErr != nil {
 		l.str.logger.Printf("error closing idle snapshot reader: %s", closeErr)
 	}
+	vhook.Point("stream.release.timeout")
 	l.str.mrsw.EndRead()
 }
 
@@ -442,6 +445,7 @@ func (s *Store) Open(id string) (raftMeta *raft.SnapshotMeta, rc io.ReadCloser, 
 	}
 	meta.Size = sz
 
+	vhook.Point("stream.acquired")
 	return meta, NewLockingStreamer(streamer, s, s.readTimeout), nil
 }
 
@@ -650,6 +654,7 @@ func (s *Store) reapInternal() (int, int, error) {
 	if err := plan.WriteToFile(p, s.reapPlanPath); err != nil {
 		return 0, 0, fmt.Errorf("writing reap plan: %w", err)
 	}
+	vhook.Point("reap.after_plan_write")
 
 	return s.executeReapPlan(p, s.reapPlanPath)
 }
@@ -660,16 +665,21 @@ func (s *Store) executeReapPlan(p *plan.Plan, planPath string) (int, int, error)
 	defer recordDuration(reapExecuteDuration, startT)
 
 	executor := plan.NewExecutor()
+	vhook.Point("reap.exec.begin")
 	if err := p.Execute(executor); err != nil {
+		vhook.Point("reap.exec.end")
 		return 0, 0, fmt.Errorf("executing reap plan: %w", err)
 	}
+	vhook.Point("reap.exec.end")
 
 	if err := fsutil.SyncDirMaybe(s.dir); err != nil {
 		return 0, 0, fmt.Errorf("syncing store dir: %w", err)
 	}
 
 	// Clean up the plan file.
+	vhook.Point("reap.before_plan_remove")
 	os.Remove(planPath)
+	vhook.Point("reap.after_plan_remove")
 	return p.NReaped, p.NCheckpointed, nil
 }
 
@@ -857,6 +867,7 @@ func (s *Store) check() error {
 				return fmt.Errorf("executing reap plan: %w", err)
 			}
 		} else {
+			vhook.Point("check.plan_done_before_remove")
 			s.logger.Printf("reap plan at %s is fully executed, removing plan", s.reapPlanPath)
 			os.Remove(s.reapPlanPath)
 		}
@@ -874,6 +885,7 @@ func (s *Store) check() error {
 			if err := os.RemoveAll(tmpPath); err != nil {
 				return fmt.Errorf("removing temporary directory %s: %w", tmpPath, err)
 			}
+			vhook.Point("check.after_tmp_remove")
 		}
 	}
 	return nil
